@@ -81,6 +81,11 @@ func (mr *MultiReaderCloser) writeToWithBuffer(w io.Writer, buf []byte) (sum int
 			mr.readers = mr.readers[i:] // permit resume / retry after error
 			return sum, err
 		}
+		// The stream was copied to its end: close it, like Read does on io.EOF.
+		// Otherwise nothing is left for Close to close.
+		if rc, ok := r.(io.Closer); ok {
+			_ = rc.Close()
+		}
 		mr.readers[i] = nil // permit early GC
 	}
 	mr.readers = nil
